@@ -314,6 +314,15 @@ func (w *UnchunkWriter) nextPipe(forceNewMessage bool) error {
 	// Lock the readers channel so that it's not closed while waiting on the
 	// select
 	w.readerMu.Lock()
+	// Never attempt the send once closing has started: readers may already be
+	// closed, and a select with both cases ready could choose the send and
+	// panic. While readerMu is held, readers cannot be closed.
+	select {
+	case <-w.closing:
+		w.readerMu.Unlock()
+		return io.ErrClosedPipe
+	default:
+	}
 	// Send reader to ChunkerReader
 	select {
 	case <-w.closing:
